@@ -13,6 +13,9 @@ Model-free oracles on the implementation (see design/C11.md):
             has it in reach ends there
   padding   real snapshots of [a, F] and [b, F] (|a| != |b| mod 4): F starts aligned in both, its chunks are shared
   repo_key  the same file snapshotted into two encrypted repositories (independent keys): boundaries differ
+  history   ONE adapter object chunks several (stream, key) jobs - sequentially in permuted order or with interleaved
+            generators, directly or through RepositoryProps.chunkify with the private part replaced: every job is cut
+            as by a brand-new adapter (and as by the model); different keys still give different boundaries
 """
 from __future__ import annotations
 
@@ -497,7 +500,7 @@ RULE = ('cases drawn from one PRNG: (a) model-sized (<= ~620 bytes, max <= 64; d
         'pairs prefix1+S, prefix2+S with prefix lengths multiples of 4, unaligned negative controls, insert / delete (multiples of 4 bytes at any '
         'offset) / alter edits, key pairs - each stream chunked by the real adapter over the recompiled C++ under a random segmentation AND by the '
         'Gallina model (vm_compute); (b) oracle-only high-entropy streams of (256 + 2..6)*max bytes, max 64..256 (thorough: ..1024, some max not '
-        'multiples of 4), min <= max/16, same kinds, key pairs independent / k0 only / k1 with differing top bit; (c) real snapshots [a,F], [b,F] in one repository, and one file in two encrypted repositories; '
+        'multiples of 4), min <= max/16, same kinds, key pairs independent / k0 only / k1 with differing top bit; (c) sessions: one adapter object used for 2-5 (stream, key) jobs, sequential / interleaved, adapter / RepositoryProps.chunkify; (d) real snapshots [a,F], [b,F] in one repository, and one file in two encrypted repositories; '
         'non-trivial = a common boundary outside the tail zone followed by >= 2 shared chunks (pairs, edits), >= 40 chunks (keys), '
         '>= 1 verified dominant position; distinct = distinct case descriptions')
 
@@ -567,6 +570,137 @@ def check_cases(cases, rep: Report, with_model=True, stats=None):
     return stats
 
 
+# --------------------------------------------------------------------------- sessions: ONE adapter object, several streams / keys
+def gen_session(rng, small):
+    """One gclmulchunker adapter object chunks several (stream, key) jobs - one after the other in some order or with the
+    generators interleaved, called directly or through RepositoryProps.chunkify with the private part replaced.  The chunks
+    of every job must be those of a brand-new adapter (= of the model): a function of (key, parameters, stream) only."""
+    if small:
+        mx = rng.choice([8, 12, 16, 24, 32, 48, 64])
+        mn = rng.choice([1, 2, 4, max(1, mx // 16), max(1, mx // 4)])
+        while c10.align4(mn) > mx:
+            mn -= 1
+        lens = lambda: rng.randint(2 * mx, 420)
+        kinds = ['random', 'random', 'random', 'blocks', 'periodic', 'zero']
+    else:
+        mx = rng.choice([64, 96, 128, 256])
+        mn = rng.choice([1, 4, mx // 16])
+        lens = lambda: rng.randint(60, 100) * mx
+        kinds = ['random']
+    keys = [good_key(rng) for _ in range(rng.choice([2, 2, 3]))]
+    if small and rng.random() < 0.3:
+        keys.append(rng.choice([b'', good_key(rng, 3)]))
+    datas = [(rng.getrandbits(32), lens(), rng.choice(kinds)) for _ in range(rng.choice([1, 1, 2]))]
+    jobs = []
+    d0 = datas[0]
+    for k in rng.sample(keys, 2):                      # the same data under two keys, always
+        jobs.append({'key': k.hex(), 'dseed': d0[0], 'n': d0[1], 'dkind': d0[2], 'segseed': rng.getrandbits(32)})
+    for _ in range(rng.choice([0, 1, 2])):
+        d = rng.choice(datas)
+        jobs.append({'key': rng.choice(keys).hex(), 'dseed': d[0], 'n': d[1], 'dkind': d[2], 'segseed': rng.getrandbits(32)})
+    rng.shuffle(jobs)                                   # key / stream order permutations
+    return {'kind': 'session', 'mn': mn, 'mx': mx, 'jobs': jobs, 'mode': rng.choice(['sequential', 'sequential', 'interleaved']),
+            'via': rng.choice(['adapter', 'adapter', 'props']), 'sched': rng.getrandbits(32), 'model': bool(small),
+            'whole': (not small) and rng.random() < 0.4}
+
+
+def session_jobs(case):
+    out = []
+    for j in case['jobs']:
+        data = _data(j['dseed'], j['n'], j['dkind'])
+        out.append((bytes.fromhex(j['key']), data, pieces_of(j['segseed'], data, case['mx'], case.get('whole', False))))
+    return out
+
+
+def run_session(case, jobs):
+    """-> list of chunk lists, one per job, all produced through ONE adapter object."""
+    import dataclasses
+    import _replicat_adapters as A
+    from replicat.utils import adapters
+    from replicat.repository import RepositoryProps
+    A.GUARD = bytes([0xA5]) if case.get('model') else None
+    try:
+        adapter = adapters.gclmulchunker(min_length=case['mn'], max_length=case['mx'])
+        base = RepositoryProps(chunker=adapter, hasher=adapters.blake2b(), cipher=adapters.aes_gcm(), private={'chunker_params': b''})
+
+        def start(key, pieces):
+            if case['via'] == 'props':                  # what Repository.init / unlock do: replace() keeps the adapter objects
+                props = dataclasses.replace(base, cipher=(base.cipher if key else None), private={'chunker_params': key})
+                assert props.chunker is adapter
+                return props.chunkify(iter(pieces))
+            return adapter(iter(pieces), params=key or None)
+
+        outs = [[] for _ in jobs]
+        if case['mode'] == 'sequential':
+            for i, (key, _, pieces) in enumerate(jobs):
+                outs[i] = [bytes(c) for c in start(key, pieces)]
+        else:
+            r = random.Random(case['sched'])
+            gens = {i: start(key, pieces) for i, (key, _, pieces) in enumerate(jobs)}
+            while gens:
+                i = r.choice(sorted(gens))
+                for _ in range(r.choice([1, 1, 2, 5])):
+                    try:
+                        outs[i].append(bytes(next(gens[i])))
+                    except StopIteration:
+                        del gens[i]
+                        break
+        return outs
+    finally:
+        A.GUARD = None
+
+
+def check_sessions(cases, rep: Report, with_model=True, stats=None):
+    stats = stats if stats is not None else {}
+    mcases, mimpl, mref = [], [], []
+    for case in cases:
+        jobs = session_jobs(case)
+        mn, mx = case['mn'], case['mx']
+        outs = run_session(case, jobs)
+        guard = 0xA5 if case.get('model') else None
+        fresh = [c10.impl_chunks(key or None, mn, mx, pieces, guard) for key, _, pieces in jobs]
+        problems = []
+        for i, ((key, data, pieces), got, want) in enumerate(zip(jobs, outs, fresh)):
+            if b''.join(got) != data:
+                problems.append((f'session job {i}: chunks do not concatenate to the stream', 'lossless'))
+            elif got != want:
+                e1, e2 = ends_of(got), ends_of(want)
+                d = next(k for k in range(min(len(e1), len(e2))) if e1[k] != e2[k]) if e1[:min(len(e1), len(e2))] != e2[:min(len(e1), len(e2))] else min(len(e1), len(e2))
+                problems.append((f'one adapter object, {case["mode"]} via {case["via"]} (min {mn}, max {mx}): stream {i} of {len(jobs)} ({len(data)} bytes, key {key.hex() or "default"}) '
+                                 f'is cut differently from what a new adapter object produces for the same key, parameters and data '
+                                 f'(chunk {d}: boundary {e1[d] if d < len(e1) else None} vs {e2[d] if d < len(e2) else None}) - the cuts depend on what the adapter did before', 'history'))
+        for i in range(len(jobs)):
+            for j in range(i + 1, len(jobs)):
+                (k1, d1, _), (k2, d2, _) = jobs[i], jobs[j]
+                if (d1 == d2 and case['jobs'][i]['dkind'] == 'random' and mn * 16 <= mx and len(outs[i]) >= 40
+                        and key_schedule(k1)[:8] != key_schedule(k2)[:8] and ends_of(outs[i]) == ends_of(outs[j])):
+                    problems.append((f'one adapter object, {case["mode"]} via {case["via"]} (min {mn}, max {mx}): keys {k1.hex() or "default"} and {k2.hex() or "default"} give '
+                                     f'identical boundaries on the same {len(d1)} high-entropy bytes ({len(outs[i])} chunks)', 'key'))
+        rep.case(case, nontrivial=all(len(o) >= 3 for o in outs))
+        rep.count(('small:' if case.get('model') else 'large:') + f'session:{case["mode"]}:{case["via"]}')
+        rep.count('session_jobs', len(jobs))
+        stats['session_streams'] = stats.get('session_streams', 0) + len(jobs)
+        rep.sample({'case': case, 'chunks_per_stream': [len(o) for o in outs]}, limit=6)
+        for what, kind in problems:
+            rep.violations.append({'what': what, 'signature': {'kind': kind}, 'replay': case})
+        if with_model and case.get('model'):
+            for (key, data, pieces), got in zip(jobs, outs):
+                mcases.append({'key': key.hex(), 'mn': mn, 'mx': mx, 'pieces': [p.hex() for p in pieces]})
+                mimpl.append([len(c) for c in got])
+                mref.append(case)
+    if mcases:
+        model, err = c10.run_model(mcases, [0xA5] * len(mcases), per_file=24)
+        if model is None:
+            rep.disagreements.append({'what': 'the chunker model could not be evaluated: ' + err, 'replay': None})
+        else:
+            for case, mc, m, i in zip(mref, mcases, model, mimpl):
+                rep.traces_validated += 1
+                if m != i:
+                    rep.disagreements.append({'what': f'chunk lengths differ on a re-used adapter object ({case["mode"]} via {case["via"]}, min {mc["mn"]}, max {mc["mx"]}, key {mc["key"]}): '
+                                                      f'model {m} implementation {i}', 'replay': dict(case, model_lengths=m, impl_lengths=i)})
+    return stats
+
+
 def run_snapshots(ctx, rep: Report, n, stats):
     for _ in range(n):
         seed = ctx.rng.getrandbits(31)
@@ -602,6 +736,8 @@ def finish(rep: Report, stats):
         'identical_chunks_outside_edit_windows': stats.get('shared_chunks', 0),
         'identical_chunks_across_snapshot_pairs': stats.get('snapshot_shared_chunks', 0),
         'dominant_position_chunk_pairs_verified': stats.get('dominant_pairs_verified', 0),
+        'streams_chunked_on_reused_adapter_objects': stats.get('session_streams', 0),
+        'streams_chunked_on_reused_adapter_objects': stats.get('session_streams', 0),
     }
 
 
@@ -609,8 +745,8 @@ def run(ctx) -> Report:
     rep = Report(rule=RULE)
     rng = ctx.rng
     stats = {}
-    small = [gen_small(rng) for _ in range(ctx.scale(500, 6000))]
-    large = [gen_large(rng, ctx.tier == 'thorough') for _ in range(ctx.scale(300, 4000))]
+    small = [gen_small(rng) for _ in range(ctx.scale(400, 6000))]
+    large = [gen_large(rng, ctx.tier == 'thorough') for _ in range(ctx.scale(220, 4000))]
     mid = []
     for _ in range(ctx.scale(20, 300)):                      # mid-sized streams for the dominant-position oracle
         c = gen_large(rng, False)
@@ -622,6 +758,8 @@ def run(ctx) -> Report:
         c['dom'] = True
         mid.append(c)
     check_cases(small + large + mid, rep, with_model=True, stats=stats)
+    sessions = [gen_session(rng, True) for _ in range(ctx.scale(50, 700))] + [gen_session(rng, False) for _ in range(ctx.scale(30, 500))]
+    check_sessions(sessions, rep, with_model=True, stats=stats)
     hash_correspondence(rng, rep, nkeyf=ctx.scale(100, 400), ndom=ctx.scale(4, 12))
     run_snapshots(ctx, rep, ctx.scale(9, 60), stats)
     finish(rep, stats)
@@ -636,10 +774,15 @@ def search(ctx, broken) -> Report:
     rng = ctx.rng
     stats = {}
     cases = []
+    sessions = []
     for b in broken:
         c = b.get('case')
-        if isinstance(c, dict) and 'kind' in c and 'dseed' in c:
+        if isinstance(c, dict) and c.get('kind') == 'session':
+            sessions.append({k: v for k, v in c.items() if k not in ('model_lengths', 'impl_lengths')})
+        elif isinstance(c, dict) and 'kind' in c and 'dseed' in c:
             cases.append({k: v for k, v in c.items() if k not in ('model_lengths', 'impl_lengths')})
+    sessions += [gen_session(rng, True) for _ in range(400)] + [gen_session(rng, False) for _ in range(150)]
+    check_sessions(sessions, rep, with_model=False, stats=stats)
     for _ in range(1500):
         c = gen_small(rng)
         cases.append(c)
@@ -659,6 +802,14 @@ def replay(ctx, obj):
         for what, kind in problems:
             print('VIOLATION-REPRODUCED', what)
         return 1 if problems else 0
+    if case.get('kind') == 'session':
+        case = {k: v for k, v in case.items() if k not in ('model_lengths', 'impl_lengths')}
+        check_sessions([case], rep, with_model=bool(case.get('model')))
+        for v in rep.violations:
+            print('VIOLATION-REPRODUCED', v['what'])
+        for d in rep.disagreements:
+            print('DISAGREEMENT-REPRODUCED', d['what'])
+        return 1 if rep.violations or rep.disagreements else 0
     if 'dseed' not in case:
         print('replay file does not carry a C11 case:', obj.get('kind'))
         return 0
